@@ -142,6 +142,15 @@ def run(tier):
             jobs.append((c, True, combos + tl_small))
         for c in extra:
             jobs.append((c, False, combos[::4]))
+        # the (discipline, text) pairs the repository's own tests use, with every option column
+        suite = {}
+        for call in common.suite_corpus().get('athlib.utils.check_performance_for_discipline', []):
+            a = call.get('a', [])
+            if len(a) >= 2 and isinstance(a[0], str) and isinstance(a[1], str):
+                suite.setdefault(a[0], set()).add(a[1])
+        for c, ts in sorted(suite.items()):
+            jobs.append((c, bool(re.match(r'^\d+mW?$', c)), [(t, g, p) for t in sorted(ts) for g, p in ((None, None), ('m', 2), ('f', 0), ('all', 3))]))
+        rep.setcov('repository_suite_pairs', sum(len(v) for v in suite.values()))
         with Pool(common.NCPU) as pool:
             parts = pool.map(_job, jobs, chunksize=1)
         recs, meta = [], []
